@@ -65,7 +65,7 @@ def yieldsAltitude (segs : List SegX) (e level : Rat) (extra : Rat := 0) : Bool 
       -- local-time tolerance of the reported point
       absR (Sturm.eval s.pz u - level) ≤ zTol s.pz level + absSum (Sturm.deriv s.pz) 1 * δu + extra ||
         (let q := Sturm.addP s.pz [-level]
-         !Sturm.isZero q && Sturm.countClosed q (max 0 (u - uTol s.pz - δu)) (min 1 (u + uTol s.pz + δu)) > 0)
+         !Sturm.isZero q && Cert.hasRoot q (max 0 (u - uTol s.pz - δu)) (min 1 (u + uTol s.pz + δu)))
     else false
 
 /-- is `level` robustly reached (from below) strictly before the instant `e`? -/
@@ -73,16 +73,16 @@ def reachedBefore (segs : List SegX) (e level : Rat) : Option String :=
   let δ := timeSlack e
   let bad := segs.find? fun s =>
     if s.nz = 8 then false      -- degree-7 altitude: outside the quantifier
-    else if s.endSec < e - δ then Sturm.reaches s.pz 0 1 (level + zTol s.pz level)
+    else if s.endSec < e - δ then Cert.reaches s.pz 0 1 (level + zTol s.pz level)
     else if s.startSec < e - δ ∧ s.durMs ≠ 0 then
       let d : Rat := (s.durMs : Rat) / 1000
       let u := (e - δ - s.startSec) / d - uTol s.pz
-      Sturm.reaches s.pz 0 (min 1 u) (level + zTol s.pz level)
+      Cert.reaches s.pz 0 (min 1 u) (level + zTol s.pz level)
     else false
   bad.map fun s => s!"the altitude {ratToString level} is already exceeded in the segment starting at {s.startMs} ms, before the reported {ratToString e} s"
 
 def reachedAnywhere (segs : List SegX) (level : Rat) : Option String :=
-  (segs.find? fun s => s.nz ≠ 8 ∧ Sturm.reaches s.pz 0 1 (level + zTol s.pz level)).map fun s =>
+  (segs.find? fun s => s.nz ≠ 8 ∧ Cert.reaches s.pz 0 1 (level + zTol s.pz level)).map fun s =>
     s!"reported 'never reached' but the segment starting at {s.startMs} ms exceeds the altitude {ratToString level}"
 
 def f32OfTok (s : String) : Option F32 := f32Tok s
@@ -92,7 +92,7 @@ def exactTouch : Touch := fun p v =>
   let q := Sturm.addP p [-v]
   if Sturm.isZero q then some 0
   else if Sturm.eval q 0 = 0 then some 0
-  else (Sturm.rootsIn q 0 1 (1 / 1099511627776)).head?
+  else (Cert.rootsIn q 0 1).head?
 
 /-- does the implementation's instant agree with the model's (run with the exact oracle), up to 2% of the duration
 of the segment the model's instant lies in?  Reported as a tag; the verdict is the acceptance rule. -/
@@ -220,14 +220,14 @@ def boxTol (p : Poly) : Rat := 64 * epsF * absSum p 1 + tinyF
 
 def checkAxis (name : String) (ps : List Poly) (lo hi : Rat) : Option String :=
   if lo > hi then some s!"box {name}: min > max" else
-  match ps.find? (fun p => Sturm.reaches p 0 1 (hi + boxTol p)) with
+  match ps.find? (fun p => Cert.reaches p 0 1 (hi + boxTol p)) with
   | some _ => some s!"box {name}: the trajectory exceeds the reported maximum {ratToString hi}"
   | none =>
-    match ps.find? (fun p => Sturm.dipsTo p 0 1 (lo - boxTol p)) with
+    match ps.find? (fun p => Cert.dipsTo p 0 1 (lo - boxTol p)) with
     | some _ => some s!"box {name}: the trajectory goes below the reported minimum {ratToString lo}"
     | none =>
-      if !ps.any (fun p => Sturm.reaches p 0 1 (hi - boxTol p)) then some s!"box {name}: the reported maximum {ratToString hi} is never touched"
-      else if !ps.any (fun p => Sturm.dipsTo p 0 1 (lo + boxTol p)) then some s!"box {name}: the reported minimum {ratToString lo} is never touched"
+      if !ps.any (fun p => Cert.reaches p 0 1 (hi - boxTol p)) then some s!"box {name}: the reported maximum {ratToString hi} is never touched"
+      else if !ps.any (fun p => Cert.dipsTo p 0 1 (lo + boxTol p)) then some s!"box {name}: the reported minimum {ratToString lo} is never touched"
       else none
 
 def checkBox (segs : List SegX) (ans : String) : Except String (List String) :=
